@@ -91,6 +91,18 @@ Check C16_fill_counter_sound : forall c ops,
   length (tbl t) = 2 ^ cap t /\ occupied_count t <= num_filled t.
 Print Assumptions C16_fill_counter_sound.
 
+(* Load bound: in every reachable table the counter exceeds GROW_RATIO * slots by at most one
+   entry (with C16_fill_counter_sound: so does the number of occupied slots).  The side conditions
+   on the shipped ratio (1/2 <= GROW_RATIO < 1) are checked on the generated constants. *)
+Theorem C16_load_bounded : forall c ops,
+  let t := final (lru_new c) ops in
+  grow_den * num_filled t <= grow_num * 2 ^ cap t + grow_den.
+Proof. intros c ops. apply final_LoadInv; unfold grow_num, grow_den; lia. Qed.
+Check C16_load_bounded : forall c ops,
+  let t := final (lru_new c) ops in
+  grow_den * num_filled t <= grow_num * 2 ^ cap t + grow_den.
+Print Assumptions C16_load_bounded.
+
 (* "... and the SDD apply and if-then-else caches never change a result": an SDD operation program
    (and / or / negate / ite / condition / exists / compose / CNF compilation steps, the ite cache
    threaded through the run) returns the same pool of canonical SDDs under any two behaviours of
